@@ -101,8 +101,10 @@ func c09History(r *rand.Rand, i int, tier string) []Ev {
 				e["field"], e["arg"] = "tier", r.Intn(65536)
 			case 1:
 				e["field"], e["arg"] = "pts", W64(rnd33(r))
+				e["same"] = r.Intn(3) == 0 // the value the signal reports at that moment (its command may carry another one)
 			case 2:
 				e["field"], e["arg"] = "adjustpts", W64(rnd33(r))
+				e["same"] = r.Intn(4) == 0
 			case 3:
 				e["field"], e["arg"] = "haspts", r.Intn(2) == 0
 			}
@@ -476,9 +478,17 @@ func c09Set(e Ev, st *c09State) {
 			s.SetTier(uint16(GI(arg)))
 			e["got"] = int(s.Tier())
 		case "pts":
+			if GBool(e["same"]) {
+				arg = W64(uint64(s.PTS()))
+				e["arg"] = arg
+			}
 			s.SetPTS(gots.PTS(UW64(arg)))
 			e["got"] = W64(uint64(s.PTS()))
 		case "adjustpts":
+			if GBool(e["same"]) {
+				arg = W64(uint64(s.PTS()))
+				e["arg"] = arg
+			}
 			s.SetAdjustPTS(gots.PTS(UW64(arg)))
 			e["got"] = W64(uint64(s.PTS()))
 		case "astuff":
